@@ -358,7 +358,7 @@ func init() {
 					}
 					for _, w := range wrappers {
 						for e := 0; e < 17; e++ {
-							for _, p := range []string{"plus1", "rand", "zero"} {
+							for _, p := range []string{"plus1", "minus1", "rand", "zero", "structured"} {
 								cs = append(cs, fw.Case{ID: fmt.Sprintf("%s/%s/key%d/%s", n, w, e, p), Kind: "elem", P: map[string]any{"inst": n, "wrapper": w, "e": e, "pert": p}})
 							}
 						}
@@ -407,6 +407,16 @@ func init() {
 						n = randBig(r, bigR)
 					case "zero":
 						n = big.NewInt(0)
+					case "minus1":
+						n = new(big.Int).Sub(old, big.NewInt(1))
+					case "structured":
+						// a step a weakened comparison / absorption could be blind to
+						d := []*big.Int{pow2(56), pow2(64), pow2(112), pow2(128), pow2(168), pow2(192), pow2(224), bigP, new(big.Int).Lsh(bigP, 224), new(big.Int).Lsh(bigP, 56)}[r.Intn(10)]
+						if r.Intn(2) == 0 {
+							n = new(big.Int).Add(old, d)
+						} else {
+							n = new(big.Int).Sub(old, d)
+						}
 					}
 					n.Mod(n, bigR)
 					if n.Cmp(old) == 0 {
